@@ -21,6 +21,16 @@ theorem seek_beyond (s : Seq) (t gran : Rat) (fuel : Nat) (h0 : ¬ t < 0) (h : t
 theorem rewind_pos (s : Seq) : (rewind s).cur = s.beginPos ∧ (rewind s).atEnd = false := by
   simp [rewind]
 
+/-- **the tempo belongs to the position**: rewinding (and therefore every seek, which rewinds first) restores the tempo of the
+    begin of the song — what is replayed afterwards runs at the speed the file gives it, whatever tempo the later parts set -/
+theorem rewind_restores_tempo (s : Seq) : (rewind s).tempo = s.beginTempo ∧ (rewind s).beginTempo = s.beginTempo ∧
+    (rewind s).loopBeginTempo = s.loopBeginTempo := by
+  simp [rewind]
+
+/-- rewinding twice is rewinding once (position, tempo, end flag, loop bookkeeping) -/
+theorem rewind_idem (s : Seq) : rewind (rewind s) = rewind s := by
+  simp [rewind, Loop.reset]
+
 /-- **a seek never changes whether looping is enabled** (it switches looping off while it fast-forwards and restores the
     flag on every path, also when the fast-forward runs into the end of the song) -/
 theorem seek_keeps_loop_flag (s : Seq) (t gran : Rat) (fuel : Nat) : (seek s t gran fuel).1.loopEnabled = s.loopEnabled := by
